@@ -262,7 +262,7 @@ func genApCases(c *Ctx) []json.RawMessage {
 		for j := 0; j < n; j++ {
 			op := alpha[rng.Intn(len(alpha))]
 			if op.Op == "write" {
-				op.Arg = make([]int, rng.Intn(300))
+				op.Arg = make([]int, []int{rng.Intn(300), rng.Intn(300), rng.Intn(9000)}[rng.Intn(3)])
 				for k := range op.Arg {
 					op.Arg[k] = rng.Intn(256)
 				}
@@ -272,6 +272,31 @@ func genApCases(c *Ctx) []json.RawMessage {
 			cs.Ops = append(cs.Ops, op)
 		}
 		out = append(out, mustJSON(cs))
+	}
+	// large contents: the buffer reallocates / grows past typical pool and page sizes before Close / Reset / reuse
+	big := func(n, seed int) []int {
+		v := make([]int, n)
+		for i := range v {
+			v[i] = int(PatByte(seed, i))
+		}
+		return v
+	}
+	for _, n := range []int{511, 512, 513, 4095, 4096, 4097, 5000, 70000} {
+		for _, h1 := range []string{"T", "B"} {
+			for _, h2 := range []string{"T", "B"} {
+				for _, end := range []string{"close", "reset"} {
+					ops := []ApOp{{H: h1, Op: "write", Arg: big(n, 3)}, {H: h2, Op: "read", N: 100}, {H: "T", Op: "remaining"}}
+					if end == "close" {
+						ops = append(ops, ApOp{H: "T", Op: "close"})
+					} else {
+						ops = append(ops, ApOp{H: h2, Op: "reset"})
+					}
+					ops = append(ops, ApOp{H: "T", Op: "remaining"}, ApOp{H: h1, Op: "write", Arg: []int{104, 105}}, ApOp{H: h2, Op: "read", N: 5},
+						ApOp{H: h2, Op: "write", Arg: big(n/2, 5)}, ApOp{H: "T", Op: "close"}, ApOp{H: "B", Op: "read", N: 1})
+					out = append(out, mustJSON(ApCase{Mode: "buffer", Via: []string{"NewBufferTransport", "NewDefaultTransport"}[n%2], Ops: ops}))
+				}
+			}
+		}
 	}
 	for _, r := range []int{-1, 0, 1, 2, 4096, 1 << 30, -5} {
 		out = append(out, mustJSON(ApCase{Mode: "generic", Readable: r}))
